@@ -646,11 +646,11 @@ Proof.
   - destruct Hph as [E _]. rewrite Ec in E. discriminate.
 Qed.
 
-Lemma R_after_switch oc s r : R oc s a_init \/ True ->
+Lemma R_after_switch oc s r :
   mailfrom s = [] -> rcpts s = [] -> rcptcount s = 0 -> goodrcpt s = 0 -> Irel oc (relayclient s) ->
   R oc (set_badcmds (set_comstate (set_rd s r) 1%N) 0) a_init.
 Proof.
-  intros _ Hmf Hrc Hn Hg Hi. split; [|exact Hi].
+  intros Hmf Hrc Hn Hg Hi. split; [|exact Hi].
   cbn [set_badcmds set_comstate set_rd comstate mailfrom rcpts rcptcount goodrcpt].
   rewrite Hmf, Hrc, Hn, Hg. unfold Rc, a_init. cbn. repeat split; auto.
 Qed.
